@@ -181,7 +181,7 @@ func runC12(tier, replay string) {
 	ctx := context.Background()
 	type variant struct{ name, stack, versioning string }
 	variants := []variant{{"sql-unversioned", "sql", ""}, {"fs-unversioned", "fs", ""}, {"sql-enabled", "sql", "Enabled"}, {"fs-suspended", "fs", "Suspended"}, {"sql-suspended-after-enabled", "sql", "Enabled>Suspended"}}
-	perVariant := r.N(25, 600)
+	perVariant := r.N(25, 400)
 	only, onlyVariant := -1, ""
 	if replay != "" {
 		b, err := os.ReadFile(replay)
